@@ -90,6 +90,11 @@ func readFileLines(filename string, startLine, endLine int) (string, error) {
 	defer f.Close()
 
 	scanner := bufio.NewScanner(f)
+	// A line can be longer than bufio.MaxScanTokenSize; allow lines as long as
+	// the file so the scan doesn't stop early with bufio.ErrTooLong.
+	if fi, err := f.Stat(); err == nil {
+		scanner.Buffer(nil, int(fi.Size())+1)
+	}
 	lines := ""
 	i := 0
 	for scanner.Scan() {
